@@ -70,7 +70,11 @@ impl Generator {
             safety_counter += 1;
 
             let stack_len = self.state.stack.len();
-            if stack_len >= 3 {
+            if self.state.version < Version::V2 {
+                // TUPLE2/TUPLE3 only exist from protocol 2 on; older protocols
+                // discard the surplus item instead
+                self.emit_opcode(Pop);
+            } else if stack_len >= 3 {
                 self.emit_opcode(Tuple3);
             } else if stack_len == 2 {
                 self.emit_opcode(Tuple2);
